@@ -103,7 +103,14 @@ def apply_edit(ctx, data, levels, names, parents, kind):
         if nl < 2:
             raise core.PathAbort('edit needs two levels')
         li = 1 + ctx.choice('edit_level', nl - 1)
-        d[levels[li]]['orphan'] = [] if li < nl - 1 else ['cellX']
+        # the orphan has a name of its own, or the name of a node that is
+        # properly listed as a child on a level above it
+        name = 'orphan'
+        if li >= 2 and ctx.flag('orphan_named_like_a_higher_node'):
+            name = names[li - 1][0]
+            if name in d[levels[li]]:
+                raise core.PathAbort('name already used on that level')
+        d[levels[li]][name] = [] if li < nl - 1 else ['cellX']
         return d
     raise ValueError(kind)
 
